@@ -29,7 +29,7 @@ Abuja,Nigeria,Africa/Lagos,09°05'N,07°32'E
 Accra,Ghana,Africa/Accra,05°35'N,00°06'W
 Addis Ababa,Ethiopia,Africa/Addis_Ababa,09°02'N,38°42'E
 Adelaide,Australia,Australia/Adelaide,34°56'S,138°36'E
-Al Jubail,Saudi Arabia,Asia/Riyadh,25°24'N,49°39'W
+Al Jubail,Saudi Arabia,Asia/Riyadh,25°24'N,49°39'E
 Algiers,Algeria,Africa/Algiers,36°42'N,03°08'E
 Amman,Jordan,Asia/Amman,31°57'N,35°52'E
 Amsterdam,Netherlands,Europe/Amsterdam,52°23'N,04°54'E
@@ -42,7 +42,7 @@ Asmara,Eritrea,Africa/Asmara,15°19'N,38°55'E
 Astana,Kazakhstan,Asia/Qyzylorda,51°10'N,71°30'E
 Asuncion,Paraguay,America/Asuncion,25°10'S,57°30'W
 Athens,Greece,Europe/Athens,37°58'N,23°46'E
-Avarua,Cook Islands,Etc/GMT-10,21°12'N,159°46'W
+Avarua,Cook Islands,Pacific/Rarotonga,21°12'S,159°46'W
 Baghdad,Iraq,Asia/Baghdad,33°20'N,44°30'E
 Baku,Azerbaijan,Asia/Baku,40°29'N,49°56'E
 Bamako,Mali,Africa/Bamako,12°34'N,07°55'W
@@ -179,7 +179,7 @@ New Delhi,India,Asia/Kolkata,28°37'N,77°13'E
 Ngerulmud,Palau,Pacific/Palau,7°30'N,134°37'E
 Niamey,Niger,Africa/Niamey,13°27'N,02°06'E
 Nicosia,Cyprus,Asia/Nicosia,35°10'N,33°25'E
-Nouakchott,Mauritania,Africa/Nouakchott,20°10'S,57°30'E
+Nouakchott,Mauritania,Africa/Nouakchott,18°05'N,15°58'W
 Noumea,New Caledonia,Pacific/Noumea,22°17'S,166°30'E
 Nuku'alofa,Tonga,Pacific/Tongatapu,21°10'S,174°00'W
 Nuuk,Greenland,America/Godthab,64°10'N,51°35'W
@@ -218,8 +218,8 @@ Roseau,Dominica,America/Dominica,15°20'N,61°24'W
 Saint Helier,Jersey,Etc/GMT,49°11'N,2°6'W
 Saint Pierre,Saint Pierre and Miquelon,America/Miquelon,46°46'N,56°12'W
 Saipan,Northern Mariana Islands,Pacific/Saipan,15°12'N,145°45'E
-Sana,Yemen,Asia/Aden,15°20'N,44°12'W
-Sana'a,Yemen,Asia/Aden,15°20'N,44°12'W
+Sana,Yemen,Asia/Aden,15°20'N,44°12'E
+Sana'a,Yemen,Asia/Aden,15°20'N,44°12'E
 San Jose,Costa Rica,America/Costa_Rica,09°55'N,84°02'W
 San Juan,Puerto Rico,America/Puerto_Rico,18°28'N,66°07'W
 San Marino,San Marino,Europe/San_Marino,43°55'N,12°30'E
